@@ -11,3 +11,5 @@ mod csptp_wire;
 mod csptp_server;
 #[cfg(test)]
 mod csptp_client;
+#[cfg(test)]
+mod estimator;
